@@ -875,6 +875,46 @@ def rule_isinstance_on_class(ctx: Ctx, rels: List[str]) -> None:
     ctx.ok_abstract("type.isinstance-on-class", f"{scanned} functions scanned, {hits} isinstance tests on a name bound to a class")
 
 
+# --------------------------------------------------------------------------- zip.pairing
+
+
+def rule_zip_pairing(ctx: Ctx, rels: List[str]) -> None:
+    """zip.pairing: two parallel sequences of one object (`op.q_registers` / `op.q_registers_type`: element i of one belongs to element i of
+    the other) stay paired only if they are walked in the same order.  `zip(sorted(x.a), x.b)` (or one side reversed) re-orders one side
+    and pairs element i of the sorted sequence with element i of the unsorted one — right only when the first was sorted already."""
+    rels = _widen(ctx, rels)
+    repo = ctx.repo
+    scanned = hits = 0
+
+    def strip(e):
+        """(inner expression, re-ordered?)"""
+        if isinstance(e, ast.Call) and isinstance(e.func, ast.Name) and e.func.id in ("sorted", "reversed") and e.args:
+            return e.args[0], True
+        if isinstance(e, ast.Subscript) and isinstance(e.slice, ast.Slice) and e.slice.step is not None and norm(e.slice.step) == "-1":
+            return e.value, True
+        if isinstance(e, ast.Call) and isinstance(e.func, ast.Name) and e.func.id in ("list", "tuple") and len(e.args) == 1:
+            return strip(e.args[0])
+        return e, False
+    for rel in rels:
+        m = repo.module(rel)
+        for fn in [f for f in ast.walk(m.tree) if isinstance(f, (ast.FunctionDef, ast.AsyncFunctionDef))]:
+            scanned += 1
+            for z in [c for c in ast.walk(fn) if isinstance(c, ast.Call) and isinstance(c.func, ast.Name) and c.func.id == "zip" and len(c.args) >= 2]:
+                parts = [strip(a) for a in z.args]
+                attrs = [(norm(e.value), e.attr, ro) for e, ro in parts if isinstance(e, ast.Attribute)]
+                if len(attrs) != len(parts):
+                    continue
+                bases = {b for b, _, _ in attrs}
+                if len(bases) == 1 and len({a for _, a, _ in attrs}) > 1 and len({ro for _, _, ro in attrs}) > 1:
+                    hits += 1
+                    ctx.touch(m, fn)
+                    ctx.fail("zip.pairing", m, z,
+                             f"{qualname(fn)} zips `{short(z.args[0], 40)}` with `{short(z.args[1], 40)}`: the two are parallel sequences of `{sorted(bases)[0]}`, and only one of them "
+                             f"is re-ordered, so element i of one is paired with element i of the other's *original* order (control index > target index: the "
+                             f"register numbers and their types are crossed)", func=qualname(fn), construct=f"{qualname(fn)}: zip of a re-ordered and an unordered parallel sequence")
+    ctx.ok_abstract("zip.pairing", f"{scanned} functions scanned, {hits} zips of parallel sequences with one side re-ordered")
+
+
 # --------------------------------------------------------------------------- search.fallthrough
 
 
